@@ -210,3 +210,9 @@ Example C08_ex_zoom :
   exists A, zoom_to_resolution ((4, 6)%Z, mkAff 10 0 100 0 (-(10)) 200) (RScalar 20) (1#100) = Ok ((2, 3)%Z, A) /\
             aff_eq A (mkAff 20 0 100 0 (-(20)) 200).
 Proof. eexists. split; [vm_compute; reflexivity|]. repeat split; reflexivity. Qed.
+
+(** Tie to the source: the definitions regenerated by tools/py2v from the current odc/geo/math.py (coq/Gen/MathGen.v, rewritten on every run) are the model (Model/MathH.v) the theorems above are stated on, up to the error kind. *)
+From OG Require Proofs.MathGenEquivH.
+Theorem C08_source_is_model : OG.Proofs.MathGenEquivH.math_source_is_model.
+Proof. exact OG.Proofs.MathGenEquivH.math_source_is_model_holds. Qed.
+Print Assumptions C08_source_is_model.
